@@ -43,17 +43,29 @@ Definition kept (s s' : state) (m : nat) : Prop :=
   (rcanc (Rn s m) = true -> rcanc (Rn s' m) = true) /\
   (ph (Rn s m) = PMain -> ph (Rn s' m) <> POver -> forall y, In y (pend (Rn s' m)) ->
      finished (st (Jb s y)) = false /\ Jb s' y = cancel_j (Jb s y)) /\
-  (ph (Rn s m) <> PMain -> pend (Rn s' m) = pend (Rn s m)).
+  (ph (Rn s m) <> PMain -> pend (Rn s' m) = pend (Rn s m)) /\
+  (forall y, In y (pend (Rn s m)) -> finished (st (Jb s y)) = false -> In y (pend (Rn s' m))) /\
+  (ph (Rn s' m) = POver \/ (exists w, ph (Rn s' m) = PShut w) -> ~ (exists w, ph (Rn s m) = PShut w) ->
+   forall y, In y (pend (Rn s m)) -> finished (st (Jb s y)) = true).
 
 Lemma filter_true_id (l : list nat) : l = filter (fun _ => true) l.
 Proof. induction l as [|a l IH]; simpl; congruence. Qed.
 
 Lemma kept_over s s' m : ph (Rn s' m) = POver -> seen (Rn s' m) = seen (Rn s m) ->
   ndone (Rn s' m) = ndone (Rn s m) -> pend (Rn s' m) = pend (Rn s m) -> ph (Rn s m) <> POver ->
-  rcanc (Rn s' m) = rcanc (Rn s m) -> kept s s' m.
+  rcanc (Rn s' m) = rcanc (Rn s m) ->
+  (~ (exists w, ph (Rn s m) = PShut w) -> forall y, In y (pend (Rn s m)) -> finished (st (Jb s y)) = true) ->
+  kept s s' m.
 Proof.
-  intros H1 H2 H3 H4 H5 H6. unfold kept. rewrite H1, H6. repeat split; auto; try (intros; contradiction).
-  exists (fun _ => true). rewrite H4. apply filter_true_id.
+  intros H1 H2 H3 H4 H5 H6 H7. unfold kept. rewrite H1, H6.
+  split; [exact H2|]. split; [exact H3|].
+  split; [exists (fun _ => true); rewrite H4; apply filter_true_id|].
+  split; [intros w _; right; reflexivity|]. split; [intros w _; right; right; reflexivity|].
+  split; [intros _; right; reflexivity|]. split; [intros _; right; reflexivity|].
+  split; [exact H5|]. split; [auto|].
+  split; [intros _ Hn; exfalso; apply Hn; reflexivity|].
+  split; [intros _; exact H4|]. split; [intros y Hy _; rewrite H4; exact Hy|].
+  intros _ Hn. apply H7. exact Hn.
 Qed.
 
 (* [actor e m]: e is a control event of the run of scheduler m *)
@@ -324,9 +336,10 @@ Qed.
 
 Lemma reff_end_cancelled c s s0 n m :
   Rn s0 = Rn s -> (n <> 0 -> st (Jb s n) = Running) -> ph (Rn s n) <> PIdle -> ph (Rn s n) <> POver ->
+  (~ (exists w, ph (Rn s n) = PShut w) -> forall y, In y (pend (Rn s n)) -> finished (st (Jb s y)) = true) ->
   reff c s (fst (end_cancelled c n s0)) m (m = n).
 Proof.
-  intros E Hr Hph Hpo. destruct (Nat.eq_dec m n) as [->|Hmn].
+  intros E Hr Hph Hpo Hallfin. destruct (Nat.eq_dec m n) as [->|Hmn].
   - destruct (Rn_end_cancelled_n c n s0) as [H1 H2].
     assert (P5 : ph (Rn s n) <> PMain -> ph (Rn (fst (end_cancelled c n s0)) n) <> PMain)
       by (intros _; rewrite H1; discriminate).
@@ -337,7 +350,7 @@ Proof.
                  fto (Rn (fst (end_cancelled c n s0)) n) = fto (Rn s n) /\ fcr (Rn (fst (end_cancelled c n s0)) n) = fcr (Rn s n))
       by (intros H; contradiction).
     assert (P7 : kept s (fst (end_cancelled c n s0)) n).
-    { destruct (seen_end_cancelled c n s0) as [S1 S2]. apply kept_over; [exact H1|rewrite S1, E; reflexivity|rewrite S2, E; reflexivity|rewrite H2, E; reflexivity|exact Hpo|rewrite rcanc_end_cancelled, E; reflexivity]. }
+    { destruct (seen_end_cancelled c n s0) as [S1 S2]. apply kept_over; [exact H1|rewrite S1, E; reflexivity|rewrite S2, E; reflexivity|rewrite H2, E; reflexivity|exact Hpo|rewrite rcanc_end_cancelled, E; reflexivity|exact Hallfin]. }
     apply RE_actor; auto.
     + rewrite H1. discriminate.
     + intros Hn0. right. rewrite Jb_end_cancelled. apply Nat.eqb_neq in Hn0.
@@ -348,9 +361,10 @@ Qed.
 
 Lemma reff_finish_run c s s0 n w r cu m :
   Rn s0 = Rn s -> (n <> 0 -> st (Jb s n) = Running) -> ph (Rn s n) <> PIdle -> ph (Rn s n) <> POver ->
+  (~ (exists w, ph (Rn s n) = PShut w) -> forall y, In y (pend (Rn s n)) -> finished (st (Jb s y)) = true) ->
   reff c s (fst (finish_run c n w r cu s0)) m (m = n).
 Proof.
-  intros E Hr Hph Hpo. destruct (Nat.eq_dec m n) as [->|Hmn].
+  intros E Hr Hph Hpo Hallfin. destruct (Nat.eq_dec m n) as [->|Hmn].
   - destruct (Rn_finish_run_n c n w r cu s0) as [H1 H2].
     assert (P5 : ph (Rn s n) <> PMain -> ph (Rn (fst (finish_run c n w r cu s0)) n) <> PMain)
       by (intros _; rewrite H1; discriminate).
@@ -361,7 +375,7 @@ Proof.
                  fto (Rn (fst (finish_run c n w r cu s0)) n) = fto (Rn s n) /\ fcr (Rn (fst (finish_run c n w r cu s0)) n) = fcr (Rn s n))
       by (intros H; contradiction).
     assert (P7 : kept s (fst (finish_run c n w r cu s0)) n).
-    { destruct (seen_finish_run c n w r cu s0) as [S1 S2]. apply kept_over; [exact H1|rewrite S1, E; reflexivity|rewrite S2, E; reflexivity|rewrite H2, E; reflexivity|exact Hpo|rewrite rcanc_finish_run, E; reflexivity]. }
+    { destruct (seen_finish_run c n w r cu s0) as [S1 S2]. apply kept_over; [exact H1|rewrite S1, E; reflexivity|rewrite S2, E; reflexivity|rewrite H2, E; reflexivity|exact Hpo|rewrite rcanc_finish_run, E; reflexivity|exact Hallfin]. }
     apply RE_actor; auto.
     + rewrite H1. discriminate.
     + intros Hn0. right. rewrite Jb_finish_run. apply Nat.eqb_neq in Hn0.
@@ -372,9 +386,12 @@ Proof.
 Qed.
 
 Lemma reff_tidy c s n m : run_alive c s n false = true ->
-  (exists w, ph (Rn s n) = PTidy w) -> reff c s (fst (react_tidy c n s)) m (m = n).
+  (exists w, ph (Rn s n) = PTidy w) -> forallb (jfin s) (pend (Rn s n)) = true ->
+  reff c s (fst (react_tidy c n s)) m (m = n).
 Proof.
-  intros Ha [w Hph]. destruct (run_alive_false _ _ _ Ha) as (Hs & Hn & Hr).
+  intros Ha [w Hph] Hfin. destruct (run_alive_false _ _ _ Ha) as (Hs & Hn & Hr).
+  assert (Hfin' : forall y, In y (pend (Rn s n)) -> finished (st (Jb s y)) = true).
+  { rewrite forallb_forall in Hfin. exact Hfin. }
   unfold react_tidy. destruct (rcanc (Rn s n)).
   - apply reff_end_cancelled; auto.
     + intros Hn0. apply Hr. exact Hn0.
@@ -436,11 +453,15 @@ Proof.
   - destruct (run_alive_false _ _ _ (Hi eq_refl)) as (Hs & Hn & Hr).
     assert (Hr' : n <> 0 -> st (Jb s n) = Running) by (intros Hn0; apply Hr; exact Hn0).
     pose proof (sd_inline_ph _ _ Ein) as Hph. pose proof (sd_inline_ph2 _ _ Ein) as Hpo.
+    assert (Hallfin : ~ (exists w, ph (Rn s n) = PShut w) ->
+                      forall y, In y (pend (Rn s n)) -> finished (st (Jb s y)) = true).
+    { intros Hx. exfalso. apply Hx. unfold sd_inline in Ein.
+      destruct (ph (Rn s n)) as [| | |w0| |]; try discriminate. exists w0. reflexivity. }
     destruct (rcanc (Rn s n)).
     + assert (Hcan : reff c s (fst (end_cancelled c n s1)) m (m = n))
         by (apply reff_end_cancelled; auto).
       destruct (end_cancelled c n s1) as [s2 mo2]. exact Hcan.
-    + pose proof (reff_finish_run c s s1 n (why_of s n) r cu m E1 Hr' Hph Hpo) as HF.
+    + pose proof (reff_finish_run c s s1 n (why_of s n) r cu m E1 Hr' Hph Hpo Hallfin) as HF.
       destruct (finish_run c n (why_of s n) r cu s1) as [s2 mo2]. exact HF.
   - apply RE_q; cbn [fst]; [rewrite Rn_hdone, E1; apply same_but_q_refl|].
     intros _. rewrite Jb_hdone, EJ. auto.
@@ -458,6 +479,10 @@ Proof.
     assert (Hr' : n <> 0 -> st (Jb s n) = Running) by (intros Hn0; apply Hr; exact Hn0).
     pose proof (sd_inline_ph _ _ Ein) as Hph.
     pose proof (sd_inline_ph2 _ _ Ein) as Hpo.
+    assert (Hallfin : ~ (exists w, ph (Rn s n) = PShut w) ->
+                      forall y, In y (pend (Rn s n)) -> finished (st (Jb s y)) = true).
+    { intros Hx. exfalso. apply Hx. unfold sd_inline in Ein.
+      destruct (ph (Rn s n)) as [| | |w0| |]; try discriminate. exists w0. reflexivity. }
     destruct (rcanc (Rn s n)).
     + assert (Hcan : reff c s (fst (end_cancelled c n s1)) m (m = n))
         by (apply reff_end_cancelled; auto).
@@ -491,6 +516,10 @@ Proof.
     + apply Rn_clear_cp.
     + rewrite Hph. discriminate.
     + rewrite Hph. discriminate.
+    + intros _ y Hy. destruct (finished (st (Jb s y))) eqn:Ef; [reflexivity|]. exfalso.
+      assert (Hin : In y (filter (fun j => negb (jfin s j)) (pend (Rn s n)))).
+      { apply filter_In. split; [exact Hy|]. unfold jfin. rewrite Ef. reflexivity. }
+      rewrite <- Eu0 in Hin. destruct Hin.
   - rewrite <- Eu in *. cbn [fst].
     destruct (Nat.eq_dec m n) as [->|Hmn].
     + match goal with |- reff c s ?S' n _ =>
@@ -507,7 +536,9 @@ Proof.
         split; [intros; discriminate|]. split; [intros; discriminate|].
         split; [intros _; left; reflexivity|]. split; [intros; discriminate|].
         split; [discriminate|]. split; [auto|].
-        split; [|intros H; exfalso; apply H; reflexivity].
+        split; [|split; [intros H; exfalso; apply H; reflexivity|split]].
+        2:{ intros y Hy Hf. rewrite Eu0. apply filter_In. split; [exact Hy|]. unfold jfin. rewrite Hf. reflexivity. }
+        2:{ intros [H|[w0 H]]; discriminate. }
         intros _ _ y Hy. split.
         - rewrite Eu0 in Hy. apply filter_In in Hy. destruct Hy as [_ Hy].
           apply negb_true_iff in Hy. exact Hy.
@@ -545,7 +576,8 @@ Proof.
       assert (P7 : kept s S' n)
     end.
     { unfold kept. rewrite Rn_setR_same. cbn [seen ndone ph pend]. rewrite Rn_clear_cp, Hph.
-      repeat split; auto; try (intros; discriminate); try (exists (fun _ => true); apply filter_true_id). }
+      repeat split; auto; try (intros; discriminate); try (exists (fun _ => true); apply filter_true_id).
+      intros [H|[w0 H]]; discriminate. }
     match goal with |- reff c s ?S' n _ =>
       assert (P8 : ph (Rn S' n) <> POver -> fto (Rn S' n) = fto (Rn s n) /\ fcr (Rn S' n) = fcr (Rn s n))
         by (intros _; rewrite Rn_setR_same; cbn [fto fcr]; rewrite Rn_clear_cp; split; reflexivity)
@@ -582,7 +614,8 @@ Proof.
       destruct Hphs as [w Hw].
       assert (P7 : kept s (fst (react_shut_cancel c n (setR s0 n v))) n).
       { unfold kept. rewrite Ephn, ER, Rn_setR_same. unfold v, s0. cbn [seen ndone pend]. rewrite Rn_clear_cp, Hw.
-        repeat split; auto; try (intros; discriminate); try (exists (fun _ => true); apply filter_true_id). }
+        repeat split; auto; try (intros; discriminate); try (exists (fun _ => true); apply filter_true_id).
+        intros _ Hx. exfalso. apply Hx. exists w. reflexivity. }
       assert (P8 : ph (Rn (fst (react_shut_cancel c n (setR s0 n v))) n) <> POver ->
                    fto (Rn (fst (react_shut_cancel c n (setR s0 n v))) n) = fto (Rn s n) /\
                    fcr (Rn (fst (react_shut_cancel c n (setR s0 n v))) n) = fcr (Rn s n))
@@ -610,13 +643,14 @@ Proof.
   - destruct k; cbn [reaction].
     + split_guards Hg. apply reff_main; [assumption|assumption| |apply andb_true_iff; split; assumption].
       destruct (ph (Rn s n)); try discriminate. reflexivity.
-    + split_guards Hg. apply reff_tidy; [assumption|].
+    + split_guards Hg. apply reff_tidy; [assumption| |assumption].
       destruct (ph (Rn s n)) as [| |w| | |]; try discriminate. exists w. reflexivity.
     + split_guards Hg. destruct (run_alive_false _ _ _ G) as (Hs & Hn & Hr).
       apply reff_end_cancelled; auto.
       * intros Hn0. apply Hr. exact Hn0.
       * destruct (ph (Rn s n)); discriminate.
       * destruct (ph (Rn s n)); discriminate.
+      * intros _. rewrite forallb_forall in G1. exact G1.
     + cbn [forallb guards app outs_guards] in Hg. apply andb_true_iff in Hg. destruct Hg as [G1 _].
       apply reff_shut. eapply sd_thread_inline; eauto.
     + cbn [forallb guards app outs_guards] in Hg. apply andb_true_iff in Hg. destruct Hg as [G1 _].
